@@ -332,11 +332,19 @@ def _conversion_wrappers(ctx):
                               % ([src(a) for a in args], slot_args),
                               loc=m.loc(fi, r))
                     # R4: a constant position must satisfy the fix-up tests
-                    if len(args) == 3 and isinstance(args[2], ast.Tuple) \
+                    posn = args[2] if len(args) == 3 else None
+                    if isinstance(posn, ast.Name) and not P._is_local(
+                            fi, posn.id):
+                        # a module-level constant standing for the tuple
+                        mv = fi.module.assigns.get(posn.id)
+                        if mv and len(mv) == 1 and isinstance(mv[0],
+                                                              ast.Tuple):
+                            posn = mv[0]
+                    if len(args) == 3 and isinstance(posn, ast.Tuple) \
                             and all(isinstance(e, (ast.Constant, ast.UnaryOp))
-                                    for e in args[2].elts):
+                                    for e in posn.elts):
                         try:
-                            vals = m.fold(fi.module, args[2])
+                            vals = m.fold(fi.module, posn)
                         except Exception:
                             vals = None
                         good = (vals is not None and len(vals) == 3
